@@ -31,6 +31,8 @@ def plan (tier, seed):
     k = 1 if tier == 'quick' else 18
     out  = [dict (kind = 'history', i = i, seed = seed) for i in range (70 * k)]
     out += [dict (kind = 'sweep',   i = i, seed = seed) for i in range (24 * k)]
+    out += [dict (kind = 'sweep', i = 0, seed = seed, edge = [f0, inc, ks, ri]) for f0 in ((7.0, 14.1) if tier == 'quick' else (7.0, 14.1, 3.6, 21.3, 28.5))
+            for inc in ((0.1, 0.04, 0.7) if tier == 'quick' else (0.1, 0.04, 0.7, 0.3, 0.01, 0.2)) for ks in (2, 3, 4, 5) for ri in (1, 2)]
     out += [dict (kind = 'procs',   i = i, seed = seed, n = 6 if tier == 'quick' else 16) for i in range (12 * k)]
     out += [dict (kind = 'inproc',  i = i, seed = seed) for i in range (16 * k)]
     out += [dict (kind = 'routes',  i = i, seed = seed) for i in range (30 * k)]
@@ -285,16 +287,14 @@ def check_sweep (c):
         extra += ['--near-field=%r,%r,%r,1,1,1,1,1,2' % (2 * lam, 2 * lam, 2 * lam), '--option', 'near-field', '--option', 'far-field']
         if rng.random () < 0.5:
             extra += ['--option', 'far-field-absolute', '--ff-distance', '500']
-    edge = c ['i'] % 3 == 0
+    edge = 'edge' in c
     if edge:
         # a wire whose radius sits exactly on (or one float beside) the limit of 1e-4 wavelengths at one step of the
         # sweep: which formulas the step uses is decided by its frequency f0 + k * increment, like in a run for it alone
-        f0  = float (rng.choice ([7.0, 14.1, 3.6, 21.3]))
-        inc = float (rng.choice ([0.1, 0.04, 0.3, 0.7, 0.01]))
-        n   = int (rng.integers (4, 7))
-        ks  = int (rng.integers (2, n))
+        f0, inc, ks, ri = c ['edge']
+        n   = ks + 1
         r0  = 0.0001 * (299.8 / (f0 + ks * inc))
-        r   = [float (np.nextafter (r0, 0)), r0, float (np.nextafter (r0, np.inf)), float (np.nextafter (np.nextafter (r0, np.inf), np.inf))] [int (rng.integers (0, 4))]
+        r   = [float (np.nextafter (r0, 0)), r0, float (np.nextafter (r0, np.inf)), float (np.nextafter (np.nextafter (r0, np.inf), np.inf))] [ri]
         spec = dict (f = f0, geo = [], media = None, loads = [], src = [])
         argv = ['-f', repr (f0), '-w', '10,0,0,0,0,0,%r,%r' % (0.47 * 299.8 / f0, r), '--excitation-pulse', '5']
     rs = common.run_main (argv + extra + ['--frequency-steps', str (n), '--frequency-increment=%r' % inc])
